@@ -137,6 +137,11 @@ theorem react_unauthenticated (s : St) (d : Datagram) (h : d.unauthenticated = t
     · simp
     · exact reactPeer_unauthenticated s src m h
 
+/-- a STUN message that does not belong to a STUN-server transaction takes the peer path -/
+theorem react_stun_peer (s : St) (src : Nat) (m : Stun) (hs : s.stunTx.contains m.txid = false) :
+    react s { src := src, kind := .stun m } = if s.closed then (s, []) else reactPeer s src m := by
+  simp only [react, hs, Bool.false_eq_true, if_false]
+
 /-! ### no STUN server configured (or discovery finished): `stunTx = []` is invariant -/
 
 theorem completion_stunTx (s : St) (r : Nat) : (completion s r).1.stunTx = s.stunTx := by
@@ -586,11 +591,11 @@ theorem handleRequest_congr (s : St) (src : Nat) (m1 m2 : Stun) (h1 : m1.roleAtt
 
 
 /-- a connected sender writes every payload to the selected pair's remote address, untouched, and its state does not change -/
-theorem run_sendApp (a : St) (dst : Nat) (hc : a.closed = false) (h : a.active = some dst) (ps : List (List UInt8)) :
+theorem run_sendApp (a : St) (dst : Nat) (h : a.active = some dst) (ps : List (List UInt8)) :
     run a (ps.map .sendApp) = (a, ps.map (Out.appSent dst)) := by
   induction ps with
   | nil => rfl
-  | cons p r ih => simp [run, step, sendApp, h, hc, ih]
+  | cons p r ih => simp [run, step, sendApp, h, ih]
 
 /-- what arrives at `dst` from those writes: the payloads as non-STUN datagrams from the sender's address, in order -/
 theorem route_appSent (a : St) (from_ dst : Nat) (ps : List (List UInt8)) :
